@@ -80,7 +80,9 @@ def literal(scanner: Scanner, ctx: dict):
             if ch == Chars.CurlyBracketOpen:
                 ctx['expression'] += 1
             elif ch == Chars.CurlyBracketClose:
-                if ctx['expression'] > expression_start:
+                # Text always starts at depth 1: a literal that continues after
+                # `$` inside nested braces must not take its own depth as the start
+                if ctx['expression'] > 1:
                     ctx['expression'] -= 1
                 else:
                     break
